@@ -26,6 +26,10 @@ Inductive astmt :=
 | ALetRawSlice (t p : string) (e : expr)           (* let t = slice::from_raw_parts_mut(p, e) *)
 | ACopyFromSlice (t : string).                     (* t.copy_from_slice(slice) *)
 
+(* what lower_atomic_bucket.py found in AtomicBucket::layout (not interpreted; GenIRLf.ab_wc_spec is derived from it):
+   the header layouts Layout::new::<T>() in order, the kind and size of the data layout, the error of the final map_err *)
+Record ablayout := mkAbLayout { abl_header : list string; abl_data : layout_kind; abl_size : expr; abl_err : err }.
+
 Record afundef := mkAFun { af_params : list string; af_body : astmt }.
 Definition ablock (l : list astmt) : astmt := fold_right ASeq ASkip l.
 
